@@ -234,6 +234,14 @@ def run_case(case, ctx):
             from .c06 import gen_pairs
 
             pairs = gen_pairs(rng, n)
+            if case["seed"][-1] % 2 == 0:
+                # another detector in the same process has seen the same classes in other encodings first (floats, then booleans): what one
+                # detector was given must not colour what the next one is given
+                other = zoo.make("DDM", zoo.draw_params("DDM", np.random.default_rng(1)))
+                for yt_, yp_ in pairs[:40]:
+                    other.update(float(yt_), float(yp_))
+                    other.update(bool(yt_), np.bool_(yp_))
+                ctx.count("lfr_runs_after_other_encodings_seen_in_process")
             canon = trace_run(name, params, lambda d, i: d.update(pairs[i][0], pairs[i][1]), n, key, ctx)
             for en, f in LFR_ENC.items():
                 tr = trace_run(name, params, lambda d, i: d.update(*f(*pairs[i])), n, key, ctx)
